@@ -3,7 +3,7 @@ CONSTANTS MaxFrags = 2
  Noises = {"none", "split"}
  FirstNoises = {"none", "leading_blank", "trailing_blank", "odd_spacing", "no_final_newline", "two_on_one", "split"}
  RefModes = {"all", "clash"}
- Modules = {"go1.18", "go1.21local", "go1.24.2", "ws1.24"}
+ Modules = {"go1.18", "go1.20", "go1.21local", "go1.24.2", "ws1.24"}
 INIT GenInit
 NEXT GenNext
 INVARIANT EmitCase
